@@ -224,6 +224,21 @@ func (d *Data) SplitLabels(v dvid.VersionID, fromLabel, splitLabel uint64, r io.
 	}
 	toLabelSize, _ := split.Stats()
 
+	// The split must be part of the label: refuse one with more voxels than the blocks of the label
+	// hold before it is partitioned into blocks (the work and memory of that grow with the declared runs).
+	var meta *Meta
+	if meta, err = GetLabelIndex(d, v, fromLabel); err != nil {
+		return
+	}
+	if meta == nil {
+		err = fmt.Errorf("label %d to be split does not exist", fromLabel)
+		return
+	}
+	if maxVoxels := uint64(len(meta.Blocks)) * uint64(d.BlockSize().Prod()); toLabelSize > maxVoxels {
+		err = fmt.Errorf("split volume of %d voxels > %d voxels in the %d blocks of label %d", toLabelSize, maxVoxels, len(meta.Blocks), fromLabel)
+		return
+	}
+
 	// Only do one large mutation at a time, although each request can start many goroutines.
 	server.LargeMutationMutex.Lock()
 	defer server.LargeMutationMutex.Unlock()
